@@ -43,6 +43,14 @@ class Recorder:
         self.notes = []
         self.exhaustive = None
         self.inconclusive = []
+        self.bulk_distinct = 0
+        self.bulk_nontrivial = 0
+
+    def bulk(self, n, nontrivial):
+        """cases that are distinct by construction (enumeration): counted, not hashed"""
+        self.evaluations += n
+        self.bulk_distinct += n
+        self.bulk_nontrivial += nontrivial
 
     def case(self, sig, nontrivial=True, n=1):
         """one executed case; sig identifies it up to the per-property equivalence"""
@@ -92,12 +100,15 @@ class Recorder:
             'notes': self.notes,
             'exhaustive': self.exhaustive,
             'inconclusive': self.inconclusive,
+            'bulk_distinct': self.bulk_distinct,
+            'bulk_nontrivial': self.bulk_nontrivial,
         }
 
 
 def merge(results):
     tot = {'evaluations': 0, 'distinct': set(), 'nontrivial': set(), 'observed': collections.Counter(),
-           'maxima': {}, 'samples': [], 'violations': {}, 'notes': [], 'exhaustive': None, 'inconclusive': []}
+           'maxima': {}, 'samples': [], 'violations': {}, 'notes': [], 'exhaustive': None, 'inconclusive': [],
+           'bulk_distinct': 0, 'bulk_nontrivial': 0}
     for r in results:
         tot['evaluations'] += r['evaluations']
         tot['distinct'].update(r['distinct'])
@@ -118,4 +129,6 @@ def merge(results):
         if r['exhaustive'] is not None:
             tot['exhaustive'] = r['exhaustive'] if tot['exhaustive'] is None else (tot['exhaustive'] and r['exhaustive'])
         tot['inconclusive'].extend(r['inconclusive'])
+        tot['bulk_distinct'] += r.get('bulk_distinct', 0)
+        tot['bulk_nontrivial'] += r.get('bulk_nontrivial', 0)
     return tot
